@@ -30,7 +30,7 @@ Definition fedge (f : ufn) (a : float) : edge :=
   end.
 (* functions that are finite-valued or +-Inf (never NaN) at every finite argument of their domain *)
 Definition total_fn (f : ufn) : bool :=
-  match f with FGamma | FLogErfc => false | _ => true end.
+  match f with FGamma => false | _ => true end.   (* LogErfc: ln(erfc x) is finite at every finite x (-Inf once erfc underflows), never NaN *)
 Definition special_ok (e : oentry) : bool :=
   let '(id, a, _, r) := e in
   match ufn_of_id id with
